@@ -214,7 +214,18 @@ impl XmlReader {
             .children()
             .find(|n| n.tag_name().name() == "schema")
             .ok_or(WriterError::SchemaNotFound)?;
+
+        // the inline schema has its own target namespace, which need not be the one of the definitions
+        let own_namespace = schema.attribute("targetNamespace");
+        if let Some(target_namespace) = own_namespace {
+            doc.switch_to_target_namespace(target_namespace);
+        }
         Self::read_xsd(schema, files, doc)?;
+        if own_namespace.is_some() {
+            if let Some(target_namespace) = child.parent().and_then(|d| d.attribute("targetNamespace")) {
+                doc.switch_to_target_namespace(target_namespace);
+            }
+        }
         Ok(())
     }
 
